@@ -7,6 +7,8 @@
 (* Cases: the named histories x the table (complete when FullCross, else the  *)
 (* baseline history x the complete table and the others x the Pivot rows),    *)
 (* plus every well-formed history of at most HistLen steps x the Probe rows.  *)
+(* (Longer histories with something falling inside a listing are enumerated   *)
+(* and exported by HeaderMirrorHist; they are run on the RaceRows.)           *)
 EXTENDS HeaderMirrorDefs, Json, SequencesExt
 CONSTANTS HistLen, FullCross
 
@@ -23,16 +25,27 @@ Named == {Baseline,
           H("none", "first", FALSE, <<"list", "change", "list">>),    \* changed since, listed again
           H("pos", "first", FALSE, <<"list", "change", "list">>),     \* changed since, second list answered from the cache
           H("pos", "first", FALSE, <<"list", "change", "wait", "list">>),  \* changed, ttl expired, listed again
-          H("none", "first", TRUE, <<"list", "change">>),             \* changed, client notified, not listed again
-          H("pos", "first", TRUE, <<"list", "change", "list">>),      \* changed, client notified, listed again
+          H("none", "first", TRUE, <<"list", "change", "notify">>),   \* changed, client notified, not listed again
+          H("pos", "first", TRUE, <<"list", "change", "notify", "list">>),  \* changed, client notified, listed again
           H("none", "later", FALSE, <<"list", "shrink">>),            \* moved to the first page since, not listed again
-          H("none", "later", FALSE, <<"list", "shrink", "change", "list">>)}  \* moved and changed, listed again
+          H("none", "later", FALSE, <<"list", "shrink", "change", "list">>),  \* moved and changed, listed again
+          \* the first tools/list is answered before a change and delivered after the change's notification; listed again
+          H("pos", "first", TRUE, <<"send", "answer", "change", "notify", "deliver", "list">>),
+          \* the same on a cache whose only entry has expired
+          H("pos", "first", TRUE, <<"list", "wait", "send", "answer", "change", "notify", "deliver", "list">>),
+          \* changed and notified between the two pages of a listing; listed again
+          H("pos", "later", TRUE, <<"send", "answer", "deliver", "change", "notify", "answer", "deliver", "list">>),
+          \* not subscribed: an answer that predates the change is delivered after it
+          H("none", "first", FALSE, <<"send", "answer", "change", "deliver">>)}
 AllHists == Hists(HistLen)
 
 Pivot(r) == r.depth \in {1, 3} /\ r.hname = "plain" /\ r.nsib \in {0, 1}
 Probe(r) == /\ <<r.ty, r.val>> \in {<<"string", "ascii">>, <<"string", "absent">>, <<"string", "nonascii">>,
                                     <<"integer", "maxsafe">>, <<"boolean", "false">>}
             /\ <<r.depth, r.nsib, r.hname>> \in {<<1, 0, "plain">>, <<2, 1, "lower">>}
+RaceRow(r) == <<r.ty, r.val, r.depth, r.nsib, r.hname>> \in {<<"string", "ascii", 1, 0, "plain">>, <<"string", "nonascii", 2, 1, "lower">>,
+                                                                 <<"integer", "maxsafe", 2, 1, "lower">>, <<"boolean", "false", 1, 0, "plain">>}
+RaceRows == {r \in RowSet : RaceRow(r)}
 CaseSet == {WithHist(r, Baseline) : r \in RowSet}
            \cup {WithHist(r, h) : r \in {r \in RowSet : FullCross \/ Pivot(r)}, h \in Named}
            \cup {WithHist(r, h) : r \in {r \in RowSet : Probe(r)}, h \in AllHists}
@@ -41,8 +54,8 @@ HistSet == Named \cup AllHists
 \* a lead: some outcome the code-shaped model allows breaks the property (certain: every such outcome does)
 Leads == {c \in CaseSet : \E o \in ExpectedSet(c) : ~Holds(c, o)}
 CertainLeads == {c \in Leads : \A o \in ExpectedSet(c) : ~Holds(c, o)}
-HistInfo(h) == [hist |-> h, informed |-> Informed(h), kinds |-> SetToSeq(DefKinds(h)), src |-> Source(h),
-                named |-> h \in Named]
+HistInfo(h) == [hist |-> h, informed |-> Informed(h), bynotice |-> ByNotice(h), racy |-> Racy(h),
+                kinds |-> SetToSeq(DefKinds(h)), src |-> Source(h), named |-> h \in Named]
 \* vacuity witnesses
 SomeEachForm == \A h \in HdrForms : \E c \in RowSet : ClientHdr(c) = h
 SomeAccepted == \E c \in CaseSet : InScope(c) /\ Informed(c.hist) /\ \A o \in ExpectedSet(c) : o.accepted
@@ -52,11 +65,11 @@ SomeUninformedRejected == \E c \in CaseSet : ~Informed(c.hist) /\ InScope(c) /\ 
 SomeEachSource == /\ \A p \in {"first", "later", "moved"} : \E h \in Named : Informed(h) /\ Source(h).page = p
                   /\ \A a \in {"nottl", "fresh", "expired"} : \E h \in Named : Informed(h) /\ Source(h).age = a
 
-ASSUME Named \subseteq Hists(4) /\ Cardinality(Named) = 15
+SomeNoticeRace == \E h \in Named : ByNotice(h) /\ Racy(h)
+ASSUME (\A h \in Named : WellFormed(h) /\ Len(h.steps) <= 8) /\ Cardinality(Named) = 19
 ASSUME B64AlwaysAccepted /\ EncodeIffNeeded /\ (\A c \in RowSet : OwnValues(c))
-ASSUME ListedStaysKnown(HistLen) /\ NeverListedKnowsNothing(HistLen) /\ InformedHoldsCurrent(HistLen)
-ASSUME OutdatedOnlyFromOrphans(HistLen) /\ NotifiedNeverOutdated(HistLen)
-ASSUME SomeEachForm /\ SomeAccepted /\ SomeOutOfScopeRejected /\ SomeEachKind /\ SomeUninformedRejected /\ SomeEachSource
+ASSUME HistFactsUpTo(HistLen) /\ \A h \in Named : HistFacts(h, Final(h))
+ASSUME SomeEachForm /\ SomeAccepted /\ SomeOutOfScopeRejected /\ SomeEachKind /\ SomeUninformedRejected /\ SomeEachSource /\ SomeNoticeRace
 ASSUME PrintT(ToJson([cases |-> Cardinality(CaseSet), inscope |-> Cardinality({c \in CaseSet : InScope(c) /\ Informed(c.hist)}),
                       hists |-> Cardinality(HistSet), informed |-> Cardinality({h \in HistSet : Informed(h)}),
                       leads |-> Cardinality(Leads), certain |-> Cardinality(CertainLeads),
@@ -65,4 +78,5 @@ ASSUME ndJsonSerialize("mirror_leads.ndjson", SetToSeq(Leads))
 ASSUME ndJsonSerialize("mirror_certain.ndjson", SetToSeq(CertainLeads))
 ASSUME ndJsonSerialize("mirror_hists.ndjson", SetToSeq({HistInfo(h) : h \in HistSet}))
 ASSUME ndJsonSerialize("mirror_cases.ndjson", SetToSeq(CaseSet))
+ASSUME ndJsonSerialize("mirror_racerows.ndjson", SetToSeq(RaceRows))
 =============================================================================
